@@ -31,6 +31,9 @@ structure TState where
   monSeen : List Nat := []
   /-- leaves that were not drained in their previous observation (stalled consumers) -/
   wasStalled : List Nat := []
+  everStalled : List Nat := []
+  /-- callbacks seen so far by monitors that were ever stalled -/
+  monAcc : List (Nat × List (Ev Obj)) := []
 
 def lookupNat {α : Type} (k : Nat) (l : List (Nat × α)) : Option α := (l.find? (·.1 == k)).map (·.2)
 
@@ -119,8 +122,14 @@ def treeLine (st : TState) (e : SExp) : TState × String :=
     | none => (st, "bad close")
   | .list [.atom "closeroot"] => treeAct st .closeRoot
   | .list [.atom "cancel"] => treeAct st .closeRoot
-  | .list [.atom "stall", .atom _] => (st, "ok")
-  | .list [.atom "unstall", .atom _] => (st, "ok")
+  | .list [.atom "stall", .atom id] =>
+    match id.toNat? with
+    | some id => treeAct { st with everStalled := setNat' id st.everStalled } (.stall id)
+    | none => (st, "bad stall")
+  | .list [.atom "unstall", .atom id] =>
+    match id.toNat? with
+    | some id => treeAct st (.unstall id)
+    | none => (st, "bad unstall")
   | .list [.atom "burst-begin"] => ({ st with inBurst := true, fuzzy := [], burstRound := true }, "ok")
   | .list [.atom "burst-end"] => ({ st with inBurst := false }, "ok")
   | .list [.atom "obs", .atom id, r, d, c, evs, ec] =>
@@ -223,9 +232,17 @@ def treeLine (st : TState) (e : SExp) : TState × String :=
             | none, none => true
             | _, _ => false) then
           ({ st1 with dead := true }, s!"diff mon node {id}: OnInitialize got {iinit.map showObjs}, model {n.monInit.map showObjs}")
+        else if st.everStalled.contains id then
+          -- a monitor whose handler blocked: which event of a batch it took first depends on the batch
+          -- order; check that everything it was called with was published to it, each at most once
+          let acc := ((lookupNat id st.monAcc).getD []) ++ ilog
+          let st1 := { st1 with monAcc := setNat id acc st1.monAcc }
+          if fuzzyNow || st.loose.contains id || acc.all (fun e => countEv e acc ≤ countEv e n.monAll) then
+            (if s.doneOf id != d && !(st.loose.contains id) then ({ st1 with dead := true }, s!"diff mon node {id}: Done() is {d}, model {s.doneOf id}") else (st1, "ok"))
+          else ({ st1 with dead := true }, s!"reject C16 monitor {id}: callbacks {showEvs acc} are not a sub-multiset of the events published to it")
         else if !fuzzyNow && !(st.fuzzy.contains id) && !(st.loose.contains id) && !sameUpToBatchOrder n.monLog ilog then
           ({ st1 with dead := true }, s!"diff mon node {id}: callbacks {showEvs ilog}, model {showEvs n.monLog}")
-        else if n.closed != d then ({ st1 with dead := true }, s!"diff mon node {id}: Done() is {d}, model {n.closed}")
+        else if s.doneOf id != d then ({ st1 with dead := true }, s!"diff mon node {id}: Done() is {d}, model {s.doneOf id}")
         else (st1, "ok")
     | _, _, _ => (st, "bad monobs")
   | .list (.atom "attach-error" :: _) => ({ st with dead := true }, "diff attach failed")
